@@ -335,7 +335,11 @@ def handle : Handler := fun input impl =>
         | some b => head ++ s!" blk={b}"
         | none => head
       let head := match o.cli with
-        | some evs => head ++ s!" cli={cliPred pl.cliKind pl.cliVar res o.csig2 evs} csig={if o.csig2 then 2 else if o.csig then 1 else 0}"
+        | some evs =>
+          -- `runT`: the await timeout fires only if the planned call was entered at all (`blk=-`: the run was over before
+          -- the stub was reached - a loaded machine -, nothing holds `Engine.Wait` up and the cli waits for it normally)
+          let var := if pl.cliVar == "T" && o.blk == some "-" then "" else pl.cliVar
+          head ++ s!" cli={cliPred pl.cliKind var res o.csig2 evs} csig={if o.csig2 then 2 else if o.csig then 1 else 0}"
         | none => head
       let body := (List.range n).zip ps |>.map fun (i, pp) =>
         let real := match pl.pools[i]?, o.pools[i]? with
